@@ -5,5 +5,5 @@ Extraction "model.ml" drv_b2n drv_n2b drv_z_of_n drv_n_of_z drv_nat_of_n drv_n_o
   encode decode decode_all has_type wf_ty compact type_of_name registry header header_prefix body
   fresh header_hash set_fields spec_hash stale bytes_eqb blake2b_256
   encode_untagged has_digest_items prim_header_hash encode_just_untagged just_has_digest_items
-  parse enc_fields req_fields
+  parse enc_fields req_fields bd_fields decode_generic_header decode_generic_just prim_header prim_justification
   encode_request encode_request_sorted decode_request request_ok encode_response decode_response normalise block_data_ok.
